@@ -25,6 +25,8 @@ fn setup(ctx: &mut Ctx) {
     ctx.floor("name:duplicate", 100);
     ctx.floor("name:empty", 50);
     ctx.floor("garbage:some-result-checked", 20);
+    ctx.floor("garbage:strtab-tail-cut", 100);
+    ctx.floor("garbage:table-built-for-other-names", 100);
     ctx.floor("hash-fn:compared", 4369);
     ctx.floor("name:extreme-hash-state", 100);
     for e in Enc::ALL {
@@ -292,7 +294,35 @@ fn corrupted(ctx: &mut Ctx) {
     let mut hash = build_sysv(enc, &names, nbucket);
     let mut symtab = tab.symtab.clone();
     let mut strtab = tab.strtab.clone();
-    match ctx.rng.below(6) {
+    let mut extra_queries: Vec<Vec<u8>> = Vec::new();
+    match ctx.rng.below(9) {
+        6 => {
+            let k = 1 + ctx.rng.usize_below(3);
+            let l = strtab.len().saturating_sub(k);
+            strtab.truncate(l);
+            ctx.count("garbage:strtab-tail-cut");
+        }
+        7 | 8 => {
+            // a table built for other names than the symbols really have (one bucket: every symbol is on the chain)
+            if names.len() > 1 {
+                let j = 1 + ctx.rng.usize_below(names.len() - 1);
+                let st_name = tab.recs[j].get("st_name") as usize;
+                let rest = &tab.strtab[st_name.min(tab.strtab.len())..];
+                let e = rest.iter().position(|c| *c == 0).unwrap_or(rest.len());
+                let after = rest.get(e + 1..).unwrap_or(&[]);
+                let e2 = after.iter().position(|c| *c == 0).unwrap_or(after.len());
+                let alt: Vec<u8> = match ctx.rng.below(3) {
+                    0 => rest[..(e + 1 + e2).min(rest.len())].to_vec(),
+                    1 => rest[..(e + 1).min(rest.len())].to_vec(),
+                    _ => { let mut v = names[j].clone(); v.push(b'!'); v }
+                };
+                let mut names2 = names.clone();
+                names2[j] = alt.clone();
+                hash = build_sysv(enc, &names2, 1);
+                extra_queries.push(alt);
+                ctx.count("garbage:table-built-for-other-names");
+            }
+        }
         0 => hash = { let n = ctx.rng.usize_below(200); ctx.rng.bytes(n) },
         1 => {
             // chains/buckets pointing anywhere, incl. cycles
@@ -343,6 +373,7 @@ fn corrupted(ctx: &mut Ctx) {
     ctx.sample(|| format!("{} corrupted table {} nsyms={}", enc.name(), hex_trunc(&hash, 48), names.len()));
     let mut queries: Vec<Vec<u8>> = names.clone();
     queries.extend(absent_candidates(&mut ctx.rng, &names, false).into_iter().take(20));
+    queries.extend(extra_queries);
     for q in queries {
         ctx.eval();
         match find_any(enc, any, &hash, &symtab, &strtab, &q) {
